@@ -409,6 +409,19 @@ func run(r *Rng, tier string, n int) {
 			g = append(g, 0xC0, 12, 0, 2, 0, 1, 0, 0, 0, 0, 0, 2, 0xC0, 12)
 		}
 		hostile(g, false, "expansion")
+		// the densest expansion the decoders allow (Coq: message_decoder_expansion_witness): one HIP record
+		// whose rendezvous servers are n 2-octet pointers to that name
+		for _, n := range []int{10, 1000, 8000} {
+			rd := []byte{0, 0, 0, 0}
+			for i := 0; i < n; i++ {
+				rd = append(rd, 0xC0, 12)
+			}
+			h := hdr(0, 1)
+			h = append(h, name...)
+			h = append(h, 0, 55, 0, 1, 0, 0, 0, 0, byte(len(rd)>>8), byte(len(rd)))
+			h = append(h, rd...)
+			hostile(h, false, "expansion-hip")
+		}
 	}
 	// random octets behind a plausible header
 	nr := 600
